@@ -241,6 +241,11 @@ func (r *Rec) Infra(format string, args ...any) {
 // Report records a failure of a case: as a known-finding hit if listed, else as violation.
 // It returns true if the failure is a (new) violation.
 func (r *Rec) Report(kind string, f *Fail, c any) bool {
+	if strings.HasPrefix(f.Key, "HARNESS") {
+		// a problem of the harness itself (or an environment it cannot handle): inconclusive, never a violation
+		r.Infra("%s: %s: %s", kind, f.Key, f.Msg)
+		return false
+	}
 	raw, _ := json.Marshal(c)
 	r.mu.Lock()
 	defer r.mu.Unlock()
@@ -387,9 +392,9 @@ func Run[C any](t *testing.T, r *Rec, p Prop[C], n int) {
 			c := p.Gen(rt)
 			f := Guard("harness-panic", func() *Fail { return p.Check(c) })
 			if f != nil {
-				if Known(r.Property, f.Key) {
+				if Known(r.Property, f.Key) || strings.HasPrefix(f.Key, "HARNESS") {
 					r.Report(p.Kind, f, c)
-					r.Class("excluded-known:"+f.Key, 1)
+					r.Class("excluded:"+f.Key, 1)
 					return
 				}
 				cc := c
